@@ -571,7 +571,13 @@ impl<TStdlib: Stdlib, TStdIn: Input, TStdOut: Printer, TLpt1: Printer>
                 self.value_stack.push(v);
             }
             Instruction::PopValueStackIntoA => {
-                let v = self.value_stack.pop().expect("value_stack underflow!");
+                // the stack can only be empty if control jumped into the middle of a block
+                // (e.g. a GOTO into a SELECT CASE)
+                let v = self
+                    .value_stack
+                    .pop()
+                    .ok_or(RuntimeError::IllegalFunctionCall)
+                    .with_err_at(&pos)?;
                 self.registers_mut().set_a(v);
             }
             Instruction::PrintSetPrinterType(printer_type) => {
